@@ -592,3 +592,10 @@ M('C13', 'streamer-skip-stateless', 'internal/cardano-node/mithril-cardano-node-
   'let is_initial_rollback = self.last_polled_point.is_none()\n                    && rollback_slot_number == self.from.slot_number;',
   'let is_initial_rollback = rollback_slot_number == self.from.slot_number;',
   ['gated by streamer state'], 'F11 comes back')
+
+# ---------------------------------------------------------------- C19 after seed C19-2
+M('C19', 'markers-written-before-unpack', 'mithril-client/src/cardano_database_client/download_unpack/internal_downloader.rs',
+  """        // Return the result later so unexpected file removal is always run
+        let download_result = self""", """        create_bootstrap_node_files(&self.logger, target_dir, &cardano_database_snapshot.network)?;
+        // Return the result later so unexpected file removal is always run
+        let download_result = self""", ['precedes create_bootstrap_node_files'], 'markers written first: an archive entry unpacked later overwrites them')
